@@ -571,6 +571,16 @@ func (env *Env) evalBin(e *E) (data.Value, status) {
 	case "==", "!=":
 		eq, ok := refEquals(a, b)
 		if !ok {
+			// a list or map is equal to itself: the same variable (without computed parts) on both sides
+			// denotes one object, whatever it holds; other comparisons of collections are unspecified.
+			x, y := e.A[0], e.A[1]
+			_, isL := a.(data.List)
+			_, isM := a.(data.Map)
+			if (isL || isM) && x.K == "var" && y.K == "var" && len(x.Acc) == 0 && len(y.Acc) == 0 && x.Op == y.Op {
+				eq, ok = true, true
+			}
+		}
+		if !ok {
 			return nil, stUnspec
 		}
 		if e.Op == "!=" {
